@@ -1921,3 +1921,23 @@ def reply_parser_func(e):
             if m is not None and matches(m):
                 return m
     return top
+
+
+def reuse(e, rep, run, newrule, text, only=None, suffix=''):
+    """Run another property's rule function `run(e, sub)` on a scratch
+    report and take its obligations over under `newrule` (optionally only
+    those of the source rule(s) `only`); errors and counts come along."""
+    from ..report import Report
+    rep.rule(newrule, text)
+    sub = Report(rep.prop, rep.tier, rep.repo)
+    run(e, sub)
+    for o in sub.obls:
+        if only is not None and o.rule not in only:
+            continue
+        rep.add(newrule, o.where, o.text, o.status,
+                (o.what + suffix) if o.what else '', o.loc, o.witness,
+                o.nontrivial, o.reason)
+    rep.errors += sub.errors
+    rep.evaluations += sub.evaluations
+    rep.functions |= sub.functions
+    rep.tables |= getattr(sub, 'tables', set())
